@@ -144,7 +144,10 @@ func (anaHost) GetKnownObjectTypeFieldAnnotations() []string { return nil }
 func (anaHost) PostValidationHook(map[string]ast.AnalyzedProgram, string, *analyzer.Analyzer, bool) []diagnostic.Diagnostic {
 	return nil
 }
-func (h anaHost) ResolveCodeModule(n string) (string, bool, error) { c, ok := h.mods[n]; return c, ok, nil }
+func (h anaHost) ResolveCodeModule(n string) (string, bool, error) {
+	c, ok := h.mods[n]
+	return c, ok, nil
+}
 func (h anaHost) GetBuiltinImport(m, v string, s herrors.Span, k pAst.IMPORT_KIND) (analyzer.BuiltinImport, bool, bool) {
 	if _, isCode := h.mods[m]; isCode {
 		return analyzer.BuiltinImport{}, false, false
@@ -158,6 +161,12 @@ type rec struct {
 	triggers []string
 	singles  []string
 	single   map[string]value.Value // host-provided singleton values (VM)
+	// outLock, when set, models a host whose output sink is guarded by a lock (as the project's
+	// own TestingVmExecutor does): every write is then a synchronisation point of its own.
+	outLock interface {
+		Lock()
+		Unlock()
+	}
 }
 
 type vmExec struct{ r *rec }
@@ -170,8 +179,12 @@ func (e vmExec) LoadSingleton(id, mod string) (value.Value, bool, error) {
 	return nil, false, nil
 }
 func (e vmExec) GetBuiltinImport(a, b string) (value.Value, bool) { return nil, false }
-func (e vmExec) ResolveModuleCode(a string) (string, bool, error)  { return "", false, nil }
+func (e vmExec) ResolveModuleCode(a string) (string, bool, error) { return "", false, nil }
 func (e vmExec) WriteStringTo(s string) error {
+	if e.r.outLock != nil {
+		e.r.outLock.Lock()
+		defer e.r.outLock.Unlock()
+	}
 	e.r.out.WriteString(s)
 	vsched.Progress()
 	return nil
@@ -193,13 +206,13 @@ func (e vmExec) Free() error { return nil }
 type treeExec struct{ r *rec }
 
 func (e treeExec) GetBuiltinImport(a, b string) (ivalue.Value, bool) { return nil, false }
-func (e treeExec) ResolveModuleCode(a string) (string, bool, error)   { return "", false, nil }
+func (e treeExec) ResolveModuleCode(a string) (string, bool, error)  { return "", false, nil }
 func (e treeExec) WriteStringTo(s string) error {
 	e.r.out.WriteString(s)
 	vsched.Progress()
 	return nil
 }
-func (e treeExec) GetUser() string                                    { return "verif" }
+func (e treeExec) GetUser() string { return "verif" }
 func (e treeExec) LoadSingleton(id string, t ast.Type) (*ivalue.Value, bool, *ivalue.Interrupt) {
 	e.r.singles = append(e.r.singles, id)
 	return nil, false, nil
